@@ -86,7 +86,7 @@ def ids (g : List Node) : List Nat := g.map (·.id)
 def closedNet (g : List Node) (start : Nat) : Bool :=
   decide (start ∈ ids g) && g.all fun n => n.succ.all (fun s => decide (s ∈ ids g)) && n.pred.all (fun s => decide (s ∈ ids g))
 
-/-- The fuel the driver uses: one more than the number of lanelets (enough by `C20_route_terminates`). -/
+/-- The fuel the model uses: one more than the number of lanelets (enough by `C20_route_terminates`). -/
 def fuelFor (g : List Node) : Nat := g.length + 1
 
 def findSuccessors (g : List Node) (start : Nat) (maxLen : Rat) : Option (List Path) :=
@@ -94,5 +94,87 @@ def findSuccessors (g : List Node) (start : Nat) (maxLen : Rat) : Option (List P
 
 def findPredecessors (g : List Node) (start : Nat) (maxLen : Rat) : Option (List Path) :=
   findInRange (predOf g) (lenOf g) start maxLen (fuelFor g)
+
+/-! ### The same loop with the lookups that can fail
+
+`lanelet_network.find_lanelet_by_id(i)` returns `None` for an id that names no lanelet, and the attribute access
+`.successor` / `.predecessor` / `.distance` that follows raises `AttributeError`.  The functions below evaluate the
+lookups exactly where the implementation does (:929, :934, :945 resp. :966, :971, :982); every failure has the same class,
+so the result is `.error .attr` as soon as one evaluated lookup is dangling.  `CRProofs/Route.lean` proves that on a closed
+network they agree with the total functions above (`findR_eq`).  This is what the driver runs. -/
+
+/-- `for s in successors:` for one worklist entry; returns what is appended to (`paths_final`, `paths_next`). -/
+def expandR (g : List Node) (start : Nat) (maxLen : Rat) (p : Path) (le : Rat) : List Nat → Res (List Path × List Item)
+  | [] => .ok ([], [])
+  | s :: ss =>
+    if blocked start maxLen p le s then
+      match expandR g start maxLen p le ss with
+      | .error e => .error e
+      | .ok (f, n) => .ok (p :: f, n)
+    else
+      match lookup g s with
+      | none => .error .attr
+      | some nd =>
+        match expandR g start maxLen p le ss with
+        | .error e => .error e
+        | .ok (f, n) =>
+          if le + nd.len < maxLen then .ok (f, (p ++ [s], le + nd.len) :: n) else .ok ((p ++ [s]) :: f, n)
+
+/-- One `(p, le)` of the `for p, le in zip(paths, lengths)` loop. -/
+def itemR (g : List Node) (nbrOf : Node → List Nat) (start : Nat) (maxLen : Rat) (it : Item) : Res (List Path × List Item) :=
+  match it.1.getLast? with
+  | none => .error .index
+  | some x =>
+    match lookup g x with
+    | none => .error .attr
+    | some nd =>
+      match nbrOf nd with
+      | [] => .ok ([it.1], [])
+      | ss => expandR g start maxLen it.1 it.2 ss
+
+def roundR (g : List Node) (nbrOf : Node → List Nat) (start : Nat) (maxLen : Rat) : List Item → Res (List Path × List Item)
+  | [] => .ok ([], [])
+  | it :: its =>
+    match itemR g nbrOf start maxLen it with
+    | .error e => .error e
+    | .ok (f1, n1) =>
+      match roundR g nbrOf start maxLen its with
+      | .error e => .error e
+      | .ok (f2, n2) => .ok (f1 ++ f2, n1 ++ n2)
+
+/-- `while paths:`; `.error .other` = fuel exhausted (never on a finite network with enough fuel). -/
+def loopR (g : List Node) (nbrOf : Node → List Nat) (start : Nat) (maxLen : Rat) :
+    Nat → List Item → List Path → Res (List Path)
+  | _, [], final => .ok final
+  | 0, _ :: _, _ => .error .other
+  | fuel + 1, it :: its, final =>
+    match roundR g nbrOf start maxLen (it :: its) with
+    | .error e => .error e
+    | .ok (f, n) => loopR g nbrOf start maxLen fuel n (final ++ f)
+
+/-- `lengths = [lanelet_network.find_lanelet_by_id(s).distance[-1] for s in self.successor]`. -/
+def initR (g : List Node) : List Nat → Res (List Item)
+  | [] => .ok []
+  | s :: ss =>
+    match lookup g s with
+    | none => .error .attr
+    | some nd =>
+      match initR g ss with
+      | .error e => .error e
+      | .ok r => .ok (([s], nd.len) :: r)
+
+def findInRangeR (g : List Node) (nbrOf : Node → List Nat) (start : Nat) (maxLen : Rat) : Res (List Path) :=
+  match lookup g start with
+  | none => .error .key      -- the start lanelet is taken from the network here; the harness always supplies it
+  | some st =>
+    match initR g (nbrOf st) with
+    | .error e => .error e
+    | .ok items => loopR g nbrOf start maxLen (fuelFor g) items []
+
+def findSuccessorsR (g : List Node) (start : Nat) (maxLen : Rat) : Res (List Path) :=
+  findInRangeR g (·.succ) start maxLen
+
+def findPredecessorsR (g : List Node) (start : Nat) (maxLen : Rat) : Res (List Path) :=
+  findInRangeR g (·.pred) start maxLen
 
 end CR.Route
